@@ -81,7 +81,7 @@ def r_zipguard_tuple(ck: Checker) -> None:
         raise Unsupported("no zip in is_instance (fixed tuples are checked differently)", f.node)
     dom = lambda k: (0, 1, 2, 3) if k.startswith("len(") else (True, False)  # noqa: E731
     vp, tp = f.node.args.args[0].arg, f.node.args.args[1].arg
-    leaves = decision_tree(strip_docstring(f.node.body), domain=dom, max_atoms=30, try_as_body=True, resolve=True)
+    leaves = decision_tree(strip_docstring(f.node.body), domain=dom, max_atoms=30, try_as_body=True, resolve="calls", sized=(f"get_args({tp})", "args"))
     n_reach = 0
     bad = []
     for lf in leaves:
@@ -154,10 +154,18 @@ def r_gate(ck: Checker) -> None:
         return
     bad = None
     locals_set = set()
+    fresh_containers = {st.targets[0].id for st in walk_body(g.body) if isinstance(st, ast.Assign) and len(st.targets) == 1 and isinstance(st.targets[0], ast.Name)
+                        and (isinstance(st.value, (ast.Dict, ast.List, ast.Set, ast.DictComp, ast.ListComp, ast.SetComp))
+                             or (isinstance(st.value, ast.Call) and dotted(st.value.func) in ("dict", "list", "set") and not st.value.args))}
     for n in walk_body(g.body):
         if isinstance(n, ast.Call) and dotted(n.func) in ("object.__setattr__", "setattr", "object.__delattr__", "delattr"):
             bad = norm(n)[:50]
         if isinstance(n, (ast.Attribute, ast.Subscript)) and isinstance(n.ctx, (ast.Store, ast.Del)):
+            base = n.value
+            while isinstance(base, (ast.Attribute, ast.Subscript)):
+                base = base.value
+            if isinstance(n, ast.Subscript) and isinstance(n.value, ast.Name) and n.value.id in fresh_containers:
+                continue  # filling a container that was created inside the block
             bad = norm(n)[:50]
         if isinstance(n, ast.Name) and isinstance(n.ctx, ast.Store):
             locals_set.add(n.id)
@@ -305,10 +313,26 @@ def r_union_first(ck: Checker) -> None:
     else:
         ck.holds("R-UNION-FIRST", f, f.node, what, evaluations=n)
     # the union arm quantifies over all members
-    arms = [r for r in walk_body(f.node.body) if isinstance(r, ast.Return) and r.value is not None
-            and norm(r.value) == f"any((is_instance({v}, t) for t in get_args({t})))"]
+    from ..astutil import alpha
+    want = alpha(ast.parse(f"any((is_instance({v}, t) for t in get_args({t})))", mode="eval").body)
     what = "a value conforms to a union iff it conforms to any member"
-    (ck.holds if arms else ck.violation)("R-UNION-FIRST", f, f.node, what, **({} if arms else {"construct": "is_instance: union arm `any(is_instance(value, t) for t in get_args(type_))` not found"}))
+    union_rets = [lf for lf in leaves if lf.assign.get(k_union) is True and lf.outcome == "return" and lf.value is not None
+                  and list(lf.assign).index(k_union) == len(lf.assign) - 1]
+    verdict = None
+    for lf in union_rets:
+        got = alpha(lf.value)
+        if got == want:
+            verdict = verdict or "ok"
+        elif f"get_args({t})[" in got or got.startswith("all("):
+            verdict = f"is_instance: a union is decided by {got[:60]} (not by `any` member conforming)"
+        elif verdict in (None, "ok"):
+            verdict = "?" + got[:60]
+    if verdict == "ok":
+        ck.holds("R-UNION-FIRST", f, f.node, what)
+    elif verdict is None or verdict.startswith("?"):
+        raise Unsupported(f"is_instance: the union arm is not of a recognised form ({(verdict or '?no return decided by is_union')[1:]})", f.node)
+    else:
+        ck.violation("R-UNION-FIRST", f, f.node, what, construct=verdict)
 
 
 def run(ck: Checker) -> None:
